@@ -202,10 +202,16 @@ def _seq_hooks(it: Interp, root: Node, seq: List[Node]):
     def h_visit(order):
         def h(it2, info, args, kwargs):
             selfv, fn = args[0], args[1]
+            todo = seq
             if not (isinstance(selfv, Node) and selfv.cid == root.cid):
-                raise Unsupported("visit on unexpected receiver")
-            it2.visits.append(("traversal", order))
-            for i, n in enumerate(seq):
+                if not isinstance(selfv, Node) or getattr(it2, "outer", None) is None:
+                    raise Unsupported("visit on unexpected receiver")
+                # a traversal started somewhere else in the tree: it meets nodes outside the receiver's subtree as well
+                it2.visits.append(("traversal-elsewhere", order, selfv.cid))
+                todo = it2.outer[:1] + seq + it2.outer[1:]
+            else:
+                it2.visits.append(("traversal", order))
+            for i, n in enumerate(todo):
                 r = it2.call(fn, [n, Opaque(f"depth{i}"), None], {})
                 it2.visits.append(("visited", n.cid, r))
                 if r == "stop":
@@ -258,10 +264,16 @@ def run_queries(chk: Check, prog: Program) -> None:
         it.visits = []
         _seq_hooks(it, root, seq)
         it.target = Opaque("wanted-id")
+        # the receiver may sit inside a larger tree: nodes outside its subtree exist and may carry the wanted id
+        it.outer = [it.new_summary(ALL_KINDS, "arg") for _ in range(2)]
         return it.call_function(m, [root, it.target], {})
-    for p in explore(prog, body_fid, {"max_updepth": 0}):
+    for p in explore(prog, body_fid, {"max_updepth": 2}):
         it = p.interp
         probs = []
+        inside = {n.cid for n in it.seq}
+        if any(v[0] == "traversal-elsewhere" for v in it.visits) and p.outcome == "return" and isinstance(p.value, Node) \
+                and p.value.cid not in inside:
+            probs.append("returns a node that is not below the receiver (the search was continued from another node of the tree)")
         hits = [c for c in [n.cid for n in it.seq] if any(k.startswith("eq:") and f"id{c}" in k and v for k, v in it.atoms.items())]
         visited = [v[1] for v in it.visits if v[0] == "visited"]
         label = f"find_id with matches at {[ [n.cid for n in it.seq].index(h) for h in hits]}"
